@@ -1,5 +1,5 @@
 import Zrnt.Beacon.Block
-import Zrnt.Beacon.Spec.Pure
+import Zrnt.Beacon.Spec.Transition
 /-!
 # Specification layer `S`, theorem-facing form of block operations with loops (pure cores)
 
@@ -119,5 +119,250 @@ def process_sync_aggregate_pure (cfg : Config) (s : State) (agg : SyncAggregate)
       | none => none
       | some committee_indices =>
         (sync_apply_pure r.1 r.2 p committee_indices bits s.balances).map fun b => { s with balances := b }
+
+/-! ## sorted index lists -/
+
+/-- `indices == sorted(set(indices))`: strictly increasing -/
+def sortedUnique : List Nat → Bool
+  | [] => true
+  | [_] => true
+  | a :: b :: rest => a < b && sortedUnique (b :: rest)
+
+/-- `sorted(...)` of a list of indices -/
+def insertionSort (l : List Nat) : List Nat :=
+  let rec ins (x : Nat) : List Nat → List Nat
+    | [] => [x]
+    | y :: ys => if x ≤ y then x :: y :: ys else y :: ins x ys
+  l.foldl (fun acc x => ins x acc) []
+
+/-! ## attestations -/
+
+/-- the first assertions of `process_attestation` (see `attestation_timing`), as a Boolean in `Nat` -/
+def attestation_timing_pure (cfg : Config) (s : State) (data : AttestationData) : Bool :=
+  let current := s.slot / cfg.SLOTS_PER_EPOCH
+  let previous := current - 1   -- get_previous_epoch: GENESIS_EPOCH stays GENESIS_EPOCH
+  (decide (data.target.epoch = previous) || decide (data.target.epoch = current)) &&
+  decide (data.target.epoch = data.slot / cfg.SLOTS_PER_EPOCH) &&
+  decide (data.slot + cfg.MIN_ATTESTATION_INCLUSION_DELAY ≤ s.slot) &&
+  (decide (s.fork ≥ .deneb) || decide (s.slot ≤ data.slot + cfg.SLOTS_PER_EPOCH))
+
+/-- `get_attesting_indices` + `sorted(...)` given the committee: members whose bit is set, each once, increasing -/
+def attesting_indices_pure (committee : List Nat) (bits : List Bool) : List Nat :=
+  insertionSort ((committee.zip bits).filterMap fun (i, b) => if b then some i else none).eraseDups
+
+/-- `is_valid_indexed_attestation` as a Boolean (`false` also where the pyspec raises an IndexError) -/
+def valid_indexed_pure (s : State) (indices : List Nat) (sig_ok : Bool) : Bool :=
+  decide (indices.length ≠ 0) && sortedUnique indices && indices.all (· < s.validators.length) && sig_ok
+
+/-- phase0 `process_attestation`, given the specification's `get_committee_count_per_slot(state, data.target.epoch)`,
+`get_beacon_committee(state, data.slot, data.index)` and `get_beacon_proposer_index(state)` (`none` where they raise):
+```python
+    assert data.target.epoch in (get_previous_epoch(state), get_current_epoch(state))
+    assert data.target.epoch == compute_epoch_at_slot(data.slot)
+    assert data.slot + MIN_ATTESTATION_INCLUSION_DELAY <= state.slot <= data.slot + SLOTS_PER_EPOCH
+    assert data.index < get_committee_count_per_slot(state, data.target.epoch)
+    committee = get_beacon_committee(state, data.slot, data.index)
+    assert len(attestation.aggregation_bits) == len(committee)
+    pending_attestation = PendingAttestation(data=data, aggregation_bits=attestation.aggregation_bits,
+        inclusion_delay=state.slot - data.slot, proposer_index=get_beacon_proposer_index(state))
+    if data.target.epoch == get_current_epoch(state):
+        assert data.source == state.current_justified_checkpoint
+        state.current_epoch_attestations.append(pending_attestation)
+    else:
+        assert data.source == state.previous_justified_checkpoint
+        state.previous_epoch_attestations.append(pending_attestation)
+    assert is_valid_indexed_attestation(state, get_indexed_attestation(state, attestation))
+``` -/
+def process_attestation_phase0_pure (cfg : Config) (s : State) (att : Attestation)
+    (committee_count : Option Nat) (committee : Option (List Nat)) (proposer : Option Nat) : Option State :=
+  let data := att.data
+  if !attestation_timing_pure cfg s data then none else
+  match committee_count with
+  | none => none
+  | some count =>
+    if ¬ data.index < count then none else
+    match committee with
+    | none => none
+    | some committee =>
+      if att.aggregation_bits.length ≠ committee.length then none else
+      match proposer with
+      | none => none
+      | some proposer_index =>
+        let pending : PendingAttestation :=
+          { data := data, aggregation_bits := att.aggregation_bits, inclusion_delay := s.slot - data.slot, proposer_index := proposer_index }
+        let limit := cfg.MAX_ATTESTATIONS * cfg.SLOTS_PER_EPOCH
+        let current := decide (data.target.epoch = s.slot / cfg.SLOTS_PER_EPOCH)
+        if data.source ≠ (if current then s.current_justified_checkpoint else s.previous_justified_checkpoint) then none else
+        if ¬ (if current then s.current_epoch_attestations.length else s.previous_epoch_attestations.length) < limit then none else
+        if !valid_indexed_pure s (attesting_indices_pure committee att.aggregation_bits) att.sig_ok then none else
+        some (if current then { s with current_epoch_attestations := s.current_epoch_attestations ++ [pending] }
+              else { s with previous_epoch_attestations := s.previous_epoch_attestations ++ [pending] })
+
+/-! ## attestations, altair … deneb -/
+
+/-- the inner loop of `process_attestation` for one attester: `for flag_index, weight in enumerate(PARTICIPATION_FLAG_WEIGHTS)`,
+on the attester's flag byte and the running numerator -/
+def attestation_flags_one (has : Nat → Bool) (base_reward : Nat) (e num : Nat) : Nat × Nat :=
+  ((List.range PARTICIPATION_FLAG_WEIGHTS.length).zip PARTICIPATION_FLAG_WEIGHTS).foldl
+    (fun acc fw => if has fw.1 && !has_flag acc.1 fw.1 then (add_flag acc.1 fw.1, acc.2 + base_reward * fw.2) else acc) (e, num)
+
+/-- `get_block_root_at_slot` in `Nat` (`none` = its assertion fails or the vector is too short) -/
+def block_root_at_slot_pure (cfg : Config) (s : State) (slot : Nat) : Option Bytes :=
+  if ¬ (slot < s.slot ∧ s.slot ≤ slot + cfg.SLOTS_PER_HISTORICAL_ROOT) then none else
+  if cfg.SLOTS_PER_HISTORICAL_ROOT = 0 then none else
+  s.block_roots[slot % cfg.SLOTS_PER_HISTORICAL_ROOT]?
+
+/-- altair `get_attestation_participation_flag_indices` [Modified in Deneb:EIP7045] (`none` = an assertion fails):
+```python
+    justified_checkpoint = current/previous justified checkpoint by data.target.epoch
+    is_matching_source = data.source == justified_checkpoint
+    is_matching_target = is_matching_source and data.target.root == get_block_root(state, data.target.epoch)
+    is_matching_head = is_matching_target and data.beacon_block_root == get_block_root_at_slot(state, data.slot)
+    assert is_matching_source
+    if is_matching_source and inclusion_delay <= integer_squareroot(SLOTS_PER_EPOCH): TIMELY_SOURCE_FLAG_INDEX
+    if is_matching_target and inclusion_delay <= SLOTS_PER_EPOCH: TIMELY_TARGET_FLAG_INDEX   # deneb: if is_matching_target
+    if is_matching_head and inclusion_delay == MIN_ATTESTATION_INCLUSION_DELAY: TIMELY_HEAD_FLAG_INDEX
+```
+(`and` is short-circuit: a block root is only looked up when the left operand holds.) -/
+def participation_flag_indices_pure (cfg : Config) (s : State) (data : AttestationData) (inclusion_delay : Nat) : Option (List Nat) :=
+  let justified := if data.target.epoch = s.slot / cfg.SLOTS_PER_EPOCH then s.current_justified_checkpoint else s.previous_justified_checkpoint
+  if data.source ≠ justified then none else
+  match block_root_at_slot_pure cfg s (data.target.epoch * cfg.SLOTS_PER_EPOCH) with
+  | none => none
+  | some target_root =>
+    let is_matching_target := decide (data.target.root = target_root)
+    let head : Option Bool :=
+      if is_matching_target then (block_root_at_slot_pure cfg s data.slot).map fun r => decide (data.beacon_block_root = r)
+      else some false
+    match head with
+    | none => none
+    | some is_matching_head =>
+      some ((if inclusion_delay ≤ integer_squareroot cfg.SLOTS_PER_EPOCH then [TIMELY_SOURCE_FLAG_INDEX] else []) ++
+        (if is_matching_target && (decide (s.fork ≥ .deneb) || decide (inclusion_delay ≤ cfg.SLOTS_PER_EPOCH)) then [TIMELY_TARGET_FLAG_INDEX] else []) ++
+        (if is_matching_head && decide (inclusion_delay = cfg.MIN_ATTESTATION_INCLUSION_DELAY) then [TIMELY_HEAD_FLAG_INDEX] else []))
+
+/-- the participation loop of altair `process_attestation` over the (sorted) attesting indices, `T = get_total_active_balance(state)`:
+```python
+    for index in get_attesting_indices(state, attestation):
+        for flag_index, weight in enumerate(PARTICIPATION_FLAG_WEIGHTS):
+            if flag_index in participation_flag_indices and not has_flag(epoch_participation[index], flag_index):
+                epoch_participation[index] = add_flag(epoch_participation[index], flag_index)
+                proposer_reward_numerator += get_base_reward(state, index) * weight
+``` -/
+def attestation_apply_pure (cfg : Config) (s : State) (T : Nat) (flags : List Nat) : List Nat → List Nat → Nat → Option (List Nat × Nat)
+  | [], part, num => some (part, num)
+  | i :: rest, part, num =>
+    match part[i]?, s.validators[i]? with
+    | some e, some v =>
+      let base_reward := v.effective_balance / cfg.EFFECTIVE_BALANCE_INCREMENT *
+        (cfg.EFFECTIVE_BALANCE_INCREMENT * cfg.BASE_REWARD_FACTOR / integer_squareroot T)
+      let r := attestation_flags_one (fun f => flags.contains f) base_reward e num
+      attestation_apply_pure cfg s T flags rest (part.set i r.1) r.2
+    | _, _ => none
+
+/-- `increase_balance` in `Nat` (`none` = index out of range) -/
+def increase_balance_pure (s : State) (index delta : Nat) : Option State :=
+  match s.balances[index]? with
+  | none => none
+  | some b => some { s with balances := s.balances.set index (b + delta) }
+
+/-- altair … deneb `process_attestation` in `Nat`, given the specification's committee count, committee, proposer and
+total active balance (`none` where they raise); `none` = rejected. Division by a zero `EFFECTIVE_BALANCE_INCREMENT` or
+`integer_squareroot(T)` counts as rejected (the pyspec raises only if some flag is newly set).
+```python
+    (epoch/slot/window assertions; deneb: no upper bound)
+    assert data.index < get_committee_count_per_slot(state, data.target.epoch)
+    committee = get_beacon_committee(state, data.slot, data.index)
+    assert len(attestation.aggregation_bits) == len(committee)
+    participation_flag_indices = get_attestation_participation_flag_indices(state, data, state.slot - data.slot)
+    assert is_valid_indexed_attestation(state, get_indexed_attestation(state, attestation))
+    epoch_participation = state.current_epoch_participation if data.target.epoch == get_current_epoch(state) else state.previous_epoch_participation
+    (participation loop)
+    proposer_reward_denominator = (WEIGHT_DENOMINATOR - PROPOSER_WEIGHT) * WEIGHT_DENOMINATOR // PROPOSER_WEIGHT
+    proposer_reward = Gwei(proposer_reward_numerator // proposer_reward_denominator)
+    increase_balance(state, get_beacon_proposer_index(state), proposer_reward)
+``` -/
+def process_attestation_altair_pure (cfg : Config) (s : State) (att : Attestation)
+    (committee_count : Option Nat) (committee : Option (List Nat)) (proposer : Option Nat) (T : Nat) : Option State :=
+  let data := att.data
+  if !attestation_timing_pure cfg s data then none else
+  match committee_count with
+  | none => none
+  | some count =>
+    if ¬ data.index < count then none else
+    match committee with
+    | none => none
+    | some committee =>
+      if att.aggregation_bits.length ≠ committee.length then none else
+      match participation_flag_indices_pure cfg s data (s.slot - data.slot) with
+      | none => none
+      | some flags =>
+        let indices := attesting_indices_pure committee att.aggregation_bits
+        if !valid_indexed_pure s indices att.sig_ok then none else
+        let current := decide (data.target.epoch = s.slot / cfg.SLOTS_PER_EPOCH)
+        let part := if current then s.current_epoch_participation else s.previous_epoch_participation
+        if cfg.EFFECTIVE_BALANCE_INCREMENT = 0 ∨ integer_squareroot T = 0 then none else
+        (attestation_apply_pure cfg s T flags indices part 0).bind fun r =>
+          proposer.bind fun p =>
+            increase_balance_pure
+              (if current then { s with current_epoch_participation := r.1 } else { s with previous_epoch_participation := r.1 })
+              p (r.2 / ((WEIGHT_DENOMINATOR - PROPOSER_WEIGHT) * WEIGHT_DENOMINATOR / PROPOSER_WEIGHT))
+
+/-! ## slashings -/
+
+/-- `slash_validator(state, slashed_index)` in `Nat`, `proposer = get_beacon_proposer_index(state)` (which the registry
+and balance updates of the function do not change: `proposer_frame`); `none` = an index is out of range or a
+configured quotient / vector length is zero:
+```python
+    epoch = get_current_epoch(state)
+    initiate_validator_exit(state, slashed_index)
+    validator = state.validators[slashed_index]
+    validator.slashed = True
+    validator.withdrawable_epoch = max(validator.withdrawable_epoch, Epoch(epoch + EPOCHS_PER_SLASHINGS_VECTOR))
+    state.slashings[epoch % EPOCHS_PER_SLASHINGS_VECTOR] += validator.effective_balance
+    decrease_balance(state, slashed_index, validator.effective_balance // MIN_SLASHING_PENALTY_QUOTIENT)   # per fork
+    proposer_index = get_beacon_proposer_index(state); whistleblower_index = proposer_index
+    whistleblower_reward = Gwei(validator.effective_balance // WHISTLEBLOWER_REWARD_QUOTIENT)
+    proposer_reward = Gwei(whistleblower_reward // PROPOSER_REWARD_QUOTIENT)             # phase0
+    proposer_reward = Gwei(whistleblower_reward * PROPOSER_WEIGHT // WEIGHT_DENOMINATOR)  # altair+
+    increase_balance(state, proposer_index, proposer_reward)
+    increase_balance(state, whistleblower_index, Gwei(whistleblower_reward - proposer_reward))
+``` -/
+def slash_validator_pure (cfg : Config) (s : State) (slashed_index proposer : Nat) : Option State :=
+  let epoch := s.slot / cfg.SLOTS_PER_EPOCH
+  if cfg.CHURN_LIMIT_QUOTIENT = 0 then none else
+  if ¬ slashed_index < s.validators.length then none else
+  let vals := initiate_validator_exit_pure cfg epoch s.validators slashed_index
+  match vals[slashed_index]? with
+  | none => none
+  | some validator =>
+    let wd := max validator.withdrawable_epoch (epoch + cfg.EPOCHS_PER_SLASHINGS_VECTOR)
+    let validator := { validator with slashed := true, withdrawable_epoch := wd }
+    let vals := vals.set slashed_index validator
+    if cfg.EPOCHS_PER_SLASHINGS_VECTOR = 0 then none else
+    let si := epoch % cfg.EPOCHS_PER_SLASHINGS_VECTOR
+    match s.slashings[si]? with
+    | none => none
+    | some sl =>
+      let slashings := s.slashings.set si (sl + validator.effective_balance)
+      let quotient := min_slashing_penalty_quotient cfg s.fork
+      if quotient = 0 ∨ cfg.WHISTLEBLOWER_REWARD_QUOTIENT = 0 ∨ (s.fork = .phase0 ∧ cfg.PROPOSER_REWARD_QUOTIENT = 0) then none else
+      match s.balances[slashed_index]? with
+      | none => none
+      | some b =>
+        let penalty := validator.effective_balance / quotient
+        let balances := s.balances.set slashed_index (if penalty > b then 0 else b - penalty)
+        let whistleblower_reward := validator.effective_balance / cfg.WHISTLEBLOWER_REWARD_QUOTIENT
+        let proposer_reward := if s.fork = .phase0 then whistleblower_reward / cfg.PROPOSER_REWARD_QUOTIENT
+          else whistleblower_reward * PROPOSER_WEIGHT / WEIGHT_DENOMINATOR
+        match balances[proposer]? with
+        | none => none
+        | some pb =>
+          let balances := balances.set proposer (pb + proposer_reward)
+          match balances[proposer]? with
+          | none => none
+          | some pb2 =>
+            let balances := balances.set proposer (pb2 + (whistleblower_reward - proposer_reward))
+            some { s with validators := vals, slashings := slashings, balances := balances }
 
 end Zrnt.Beacon.Block
